@@ -733,6 +733,12 @@ class Einsum(EvalableModel):
         }
 
         st = {**rename_symbol_table, **symbol_table}
+        # Tensors and rank variables of other Einsums resolve to the empty set, also
+        # inside this Einsum's rename sources.
+        for t in workload.tensor_names:
+            st.setdefault(t, InvertibleSet(instance=(), **kwargs_tensors))
+        for r in workload.rank_variables:
+            st.setdefault(r, InvertibleSet(instance=(), **kwargs_rank_variables))
 
         self: Einsum = self.model_copy()
         self.renames = RenameList(self.renames)
